@@ -107,6 +107,8 @@ KNOWN_CLASSES = {
     "empty_allOf_closed_object": lambda kind, tags: "EmptyAllOf" in tags and kind == "member-but-invalid-against-schema",
     "contextual_allOf_of_named_closed_objects": lambda kind, tags: "AllOfWithRef" in tags and "mode:contextual" in tags
                                                                    and kind == "member-but-invalid-against-schema",
+    "allOf_with_unmergeable_member_keeps_closed_objects": lambda kind, tags: "AllOfUnmergeable" in tags
+                                                                             and kind == "member-but-invalid-against-schema",
     "empty_prefixItems": lambda kind, tags: "Tuple" in tags and kind == "schema-not-wellformed",
     "allOf_non_object_member": lambda kind, tags: "AllOf" in tags and kind == "valid-against-schema-but-rejected",
     "required_property_accepting_undefined": lambda kind, tags: "RequiredAcceptsUndefined" in tags and kind == "member-but-invalid-against-schema",
@@ -211,6 +213,13 @@ def check(run):
         for n in [x for r in [c["rt"]] + [b for _, b in c["env"]] for x in rt_nodes(r)]:
             if n[0] == "AllOf" and len(n[1]) == 0: tags.add("EmptyAllOf")
             if n[0] == "AllOf" and len(n[1]) >= 2 and any(m[0] == "Ref" or (m[0] == "Meta" and m[-1][0] == "Ref") for m in n[1]): tags.add("AllOfWithRef")
+            if n[0] == "AllOf" and len(n[1]) >= 2:
+                envd = dict(c["env"])
+                def plain_object(m, depth=0):
+                    while m[0] in ("Meta", "Ref") and depth < 20:
+                        m = m[-1] if m[0] == "Meta" else envd.get(m[1], ("Any",)); depth += 1
+                    return m[0] == "Object" and not m[2]
+                if not all(plain_object(m) for m in n[1]): tags.add("AllOfUnmergeable")
         desc = dict(rstage.case_text(c), mode=mode)
         if mode == "flat" and any(n[0] == "Ref" for r in [c["rt"]] + [b for _, b in c["env"]] for n in rt_nodes(r)):
             from checks.c13 import recursive_reachable
